@@ -68,6 +68,16 @@ Theorem C08_placed_once : forall c find_ex queue_exists m ex l acts,
 Proof. exact placed_once. Qed.
 Print Assumptions C08_placed_once.
 
+(* ... and without any assumption on the queues (a matched queue may have vanished meanwhile):
+   never twice into a queue, never into a queue outside the matched set *)
+Theorem C08_placed_at_most_once : forall c find_ex queue_exists m ex l acts,
+  find_ex (m_exchange m) = Some ex ->
+  matched_queues c ex m = Some l ->
+  publish_decision c find_ex queue_exists m = Some acts ->
+  forall q, (pushes_to q acts <= 1)%nat /\ (pushes_to q acts = 1%nat -> In q l).
+Proof. exact placed_at_most_once. Qed.
+Print Assumptions C08_placed_at_most_once.
+
 Theorem C08_unroutable : forall c find_ex queue_exists m,
   (find_ex (m_exchange m) = None ->
      publish_decision c find_ex queue_exists m = Some [PReturn; PConfirm]) /\
